@@ -4,7 +4,9 @@ from .. import pure, common as C
 
 ENTRY = {0: "TCP remote", 1: "Unix-socket remote", 2: "SOCKS5 CONNECT", 3: "SOCKS4", 4: "SOCKS4a", 5: "HTTP CONNECT"}
 SHAPE = {0: "local writes+half-closes, target answers after EOF", 1: "target writes+half-closes, local answers after EOF",
-         2: "both write at once", 3: "target writes then closes", 4: "local writes then closes", 5: "target refuses", 6: "target answers, half-closes, then closes during the upload", 7: "slow half-closed target, 3 MB upload"}
+         2: "both write at once", 3: "target writes then closes", 4: "local writes then closes", 5: "target refuses", 6: "target answers, half-closes, then closes during the upload", 7: "slow half-closed target, 3 MB upload",
+         8: "target answers+half-closes, local then sends and stays open until the target has it all",
+         9: "local writes+half-closes, target then answers and stays open until the local client has it all"}
 
 
 class C01(pure.Spec):
@@ -19,10 +21,10 @@ class C01(pure.Spec):
     design_ref = "DESIGN.md §5 C01"
     rule = ("the real client_main_inner and the real server run_listener on loopback, local clients and scripted targets "
             "driven by the harness: every entry point (TCP remote, Unix-socket remote, SOCKS5 CONNECT with IPv4 and domain "
-            "names, SOCKS4, SOCKS4a, HTTP CONNECT) x six connection shapes (half-close by either side first with the "
+            "names, SOCKS4, SOCKS4a, HTTP CONNECT; for the proxy entries also an eager local client that sends its first payload bytes in the same write as the request; targets on the IPv4 and, where the machine has one, the IPv6 loopback: remote [::1]:port, SOCKS5 ATYP 4, CONNECT [::1]:port) x ten connection shapes (half-close by either side first with the "
             "answer sent afterwards, both directions at once, close by the target, close by the local client, refusing "
-            "target, target closing completely during an upload after having half-closed, a slow half-closed target receiving a 3 MB upload), 1-5 concurrent connections, chunk sizes 0..200 kB (several windows); UDP remote and SOCKS5 UDP "
-            "association (own or shared association, IPv4 and domain-name headers), 1-4 concurrent clients, datagram sizes "
+            "target, target closing completely during an upload after having half-closed, a slow half-closed target receiving a 3 MB upload, and the two half-close orders in which the late direction must be delivered while the connection stays open), 1-5 concurrent connections, chunk sizes 0..200 kB (several windows); UDP remote and SOCKS5 UDP "
+            "association (own or shared association, IPv4, IPv6 and domain-name headers, one client alternating between two targets), 1-4 concurrent clients, datagram sizes "
             "0..8 kB. Observed: bytes received at both ends compared byte by byte with the peer's stream, how each side "
             "saw the end (clean EOF / reset / still open after 6 s), per UDP client the replies that are its own, foreign "
             "or duplicate replies, the source address of replies, RFC 1928 header well-formedness, datagrams the target "
@@ -57,6 +59,9 @@ class C01(pure.Spec):
 
     def equal(self, case, impl, model):
         if impl == model:
+            return True
+        if impl.strip() == "999996":
+            # an IPv6 variant on a machine without an IPv6 loopback: not run (its coverage cell is then absent)
             return True
         t = case.split()
         if t[1] != "2":
